@@ -3,7 +3,7 @@
    (checkRangeRightBound returns the accumulated res; index bounds are never rewritten); Refuted.v shows that
    both deviations of today's code break them. *)
 From Coq Require Import ZArith List Bool Arith Sorted.
-From OG Require Import C20.Model C20.Proofs C20.Cover C20.ScanProofs C20.TwoSided C20.NullOrder C20.MinMax.
+From OG Require Import C20.Model C20.Proofs C20.Cover C20.ScanProofs C20.TwoSided C20.NullOrder C20.MinMax C20.StrOps.
 Import ListNotations.
 
 (* mark_sound: CheckInRange over a hyper-rectangle never says "cannot be true" when some row of the rectangle
@@ -153,6 +153,28 @@ Theorem C20_minmax_bounds : forall block c row z, In row block -> nth c row None
   exists a b, col_bounds (column block c) = Some (a, b) /\ (a <= z <= b)%Z.
 Proof. exact minmax_bounds. Qed.
 Print Assumptions C20_minmax_bounds.
+
+(* ---------- predicates the key order cannot bound (MATCHPHRASE, IPINRANGE, LIKE, MATCH on a key column) ----------
+   repaired (/repo 05a4bb5): such an atom is an AlwaysTrue element - it may be true anywhere (canBeTrue, never
+   "certainly false") and it keeps its operand slot for the AND / OR that follows *)
+Theorem C20_unboundable_atom_always_true : forall isint col k v id rgs,
+  compile isint (lower (XStr col k v id)) = Some [ETrue] /\
+  check_in_range [ETrue] rgs = Some (mkM true false).
+Proof. exact str_atom_always_true. Qed.
+Print Assumptions C20_unboundable_atom_always_true.
+
+(* every tree with such atoms compiles (no missing operand), and pruning is sound whatever the opaque predicates answer *)
+Theorem C20_scan_sound_unboundable_atoms : forall isint nonkey x keys pads sizes nk coarse minmarks i,
+  Forall (fun k => length k = nk) keys -> writer_sorted pads keys ->
+  Forall (fun z => 1 <= z)%nat sizes -> sum sizes = length keys ->
+  (2 <= coarse)%nat -> (i < length sizes)%nat ->
+  (exists row, In row (frag_rows sizes keys i) /\ eval_xcond nonkey x row = true) ->
+  exists rpn, compile isint (lower x) = Some rpn /\
+    ((used_keys rpn <= nk)%nat -> (used_keys rpn <= length isint)%nat ->
+     exists rs, scan repaired isint rpn (read_index null_pad pads (build_index sizes keys)) (length sizes) coarse minmarks
+                = ScanOk rs /\ covered i rs = true).
+Proof. exact scan_sound_strops. Qed.
+Print Assumptions C20_scan_sound_unboundable_atoms.
 
 (* ---------- the hypotheses are satisfiable: the refutation witnesses of Refuted.v, under the repaired model ---------- *)
 Open Scope Z_scope.
